@@ -21,6 +21,9 @@ def main(tier):
     chk.assumptions += ['CssDecl.ElemNsOk / AttrNsOk are the reading of CSS Namespaces 3 and the property statement',
                         'namespace-aware trees only (XML builder, html5lib-style XHTML root); prefixes of the document are generated independently of the map']
     replay.run_cfg(chk, 'MC_C12', {'MaxKids': 1 if tier == 'quick' else 2}, 'ns%d' % (1 if tier == 'quick' else 2))
+    # the caller's map next to the library's own definitions: `h|*:checked`, `*|*:link` ... under a map with a default namespace (MC_C17_ns,
+    # second pool family): the map decides h|* and *|*, never how the definition of the pseudo-class is read
+    replay.run_cfg(chk, 'MC_C17_ns', {'MaxNodes': 2 if tier == 'quick' else 3}, 'ns-state')
     trace_part(chk, tier)
     return chk.finish()
 
